@@ -89,8 +89,20 @@ func c10seq(c *Ctx, cfg *encCfg, ctxs [][]zapcore.Field, ctxx []SX, cs *coreSpec
 	var events []SX
 	eo := &errOut{}
 	cores := []zapcore.Core{cs.buildSeq(cfg, &entry, &events)}
+	withPanicked := false
 	for _, fs := range ctxs {
-		cores = append(cores, cores[len(cores)-1].With(fs))
+		func() {
+			defer func() {
+				if p := recover(); p != nil {
+					withPanicked = true
+					c.Viol(fmt.Sprintf("Core.With of a generated context panicked: %v", p), L(I(2), cfg.sx(), L(ctxx...), cs.sx(), L()))
+				}
+			}()
+			cores = append(cores, cores[len(cores)-1].With(fs))
+		}()
+		if withPanicked {
+			return
+		}
 	}
 	var per, entx []SX
 	returned := true
